@@ -199,20 +199,40 @@ def run_life(case):
                 else:
                     if at.get('close_in_cb'):
                         # the application closes the link from inside a notification (dispatcher thread: no race involved)
-                        ev_caller = getattr(cf, at['close_in_cb'])
                         fired = []
+                        seen_pk = [0]
+                        port_cb = None
+                        if at['close_in_cb'].startswith('port:'):
+                            # ... or from inside its own packet callback on one of the library's ports, at the k-th packet it sees there
+                            # (registered before the connection starts, so it runs before the library's callbacks for that packet)
+                            _, cb_port, cb_k = at['close_in_cb'].split(':')
 
-                        def closer(*a_):
-                            if not fired:
-                                fired.append(1)
-                                closes[0] += 1
-                                _close(cf)
-                        ev_caller.add_callback(closer)
+                            def closer(pk_):
+                                seen_pk[0] += 1
+                                if not fired and seen_pk[0] > int(cb_k):
+                                    fired.append(1)
+                                    closes[0] += 1
+                                    _close(cf)
+                            port_cb = int(cb_port)
+                            cf.add_port_callback(port_cb, closer)
+                            out.feat('closed-from-a-port-callback')
+                        else:
+                            ev_caller = getattr(cf, at['close_in_cb'])
+
+                            def closer(*a_):
+                                if not fired:
+                                    fired.append(1)
+                                    closes[0] += 1
+                                    _close(cf)
+                            ev_caller.add_callback(closer)
                     cf.open_link('sim://1')
                     if at.get('close_in_cb'):
                         s.sleep(5.0)
                         try:
-                            ev_caller.remove_callback(closer)
+                            if port_cb is not None:
+                                cf.remove_port_callback(port_cb, closer)
+                            else:
+                                ev_caller.remove_callback(closer)
                         except ValueError:
                             pass
                         if not fired and at.get('close_at') is None and not at.get('fault'):
@@ -320,7 +340,8 @@ _attempt = st.fixed_dictionaries({
                                                           'empty_msg': st.sampled_from([False, False, False, True])})),
     'close_at': st.one_of(st.none(), st.none(), st.sampled_from([0.0, 0.0005, 0.002, 0.005, 0.01, 0.02, 0.05, 0.3, 2.0])),
     'sync': st.booleans(),
-    'close_in_cb': st.sampled_from([None, None, None, None, 'link_established', 'connected', 'fully_connected'])})
+    'close_in_cb': st.one_of(st.sampled_from([None, None, None, None, 'link_established', 'connected', 'fully_connected']),
+                             st.builds(lambda p_, k_: 'port:%d:%d' % (p_, k_), st.sampled_from([2, 5, 4, 13]), st.integers(0, 12)))})
 
 
 @st.composite
@@ -370,6 +391,11 @@ def history_sweep_cases(tier):
                 yield {'nlog': 2, 'nparam': 3, 'mems': [1], 'version': 10, 'needs_resending': False, 'delays': [0.001],
                        'attempts': [{'fault': None, 'close_at': 0.5, 'sync': sync}, {'fault': {'k': k, 'reporter': rep}, 'close_at': None, 'sync': sync}],
                        'schedule': {'prefix': [], 'seed': k, 'rate': 0.0}}
+    for cb_port in (2, 5, 4, 13):
+        for k in range(0, 14):
+            yield {'nlog': 2, 'nparam': 3, 'mems': [1], 'version': 10, 'needs_resending': False, 'delays': [0.001],
+                   'attempts': [{'fault': None, 'close_at': None, 'sync': False, 'close_in_cb': 'port:%d:%d' % (cb_port, k)}],
+                   'schedule': {'prefix': [], 'seed': k, 'rate': 0.0}}
     for mems in ([0], [], [0, 0x30], [1, 0]):
         for j in range(0, 60, step):
             yield {'nlog': 2, 'nparam': 3, 'mems': mems, 'version': 10, 'needs_resending': True, 'delays': [0.001] * j + [0.21] + [0.001] * (90 - j),
